@@ -93,9 +93,11 @@ for d in sorted(glob.glob(os.path.join(ROOT, "seeded", "*"))):
     try: r = json.load(open(rp))
     except ValueError: continue
     prop, what, needs = DESC[name]
-    confirmed = r.get("demo_on_unchanged_tree") == "pass" and str(r.get("demo_with_patch", "")).startswith("fail") and r.get("existing_suite_with_patch", {}).get("failed", 1) == 0
+    # (the demonstrations of the C24 seeds pass under plain `cargo test` by design and are reported by Miri)
+    miri = r.get("demo_under_miri") or {}
+    confirmed = r.get("demo_on_unchanged_tree") == "pass" and (str(r.get("demo_with_patch", "")).startswith("fail") or miri.get("confirmed")) and r.get("existing_suite_with_patch", {}).get("failed", 1) == 0
     meta = {"property": prop, "change": what, "needs_to_manifest": needs,
-            "confirmation": {"demo_on_unchanged_tree": r.get("demo_on_unchanged_tree"), "existing_suite_with_patch": r.get("existing_suite_with_patch"), "demo_with_patch": r.get("demo_with_patch"), "confirmed": confirmed},
+            "confirmation": {"demo_on_unchanged_tree": r.get("demo_on_unchanged_tree"), "existing_suite_with_patch": r.get("existing_suite_with_patch"), "demo_with_patch": r.get("demo_with_patch"), "demo_under_miri": miri or None, "confirmed": confirmed},
             "ran": ["tools/seedtest.py seeded/%s --checks %s   (scratch worktree of /repo HEAD; cargo test --offline for the suite and the demo; VERIF_REPO=<worktree> ./check <ID> --tier quick)" % (name, ",".join(r.get("checks", {}).keys()))],
             "checks": {k: {"exit": v["rc"], "violation_lines": v["violation_lines"], "wall_s": v["wall_s"]} for k, v in r.get("checks", {}).items()},
             "caught_by": r.get("caught_by", [])}
